@@ -174,4 +174,119 @@ theorem at0_le_sumBy (f : α → Int) (m : List (κ × α)) (k : κ) (h : ∀ p 
       simp only [at0, find?, hk, if_false, sumBy] at this ⊢
       simp at h1; omega
 
+theorem find?_of_mem (m : List (κ × α)) (k : κ) (v : α) (hn : NoDup m) (h : (k, v) ∈ m) :
+    find? m k = some v := by
+  induction m with
+  | nil => cases h
+  | cons p rest ih =>
+    obtain ⟨k', v'⟩ := p
+    simp only [NoDup, keys, List.map_cons, List.nodup_cons] at hn
+    rcases List.mem_cons.1 h with h1 | h1
+    · injection h1 with e1 e2; subst e1; subst e2; simp [find?]
+    · have hk : k ∈ keys rest := List.mem_map.2 ⟨(k, v), h1, rfl⟩
+      have : ¬ k' = k := fun e => hn.1 (e ▸ hk)
+      simp only [find?, this, if_false]
+      exact ih hn.2 h1
+
+/-! ### key-aware sums (per-asset sums filter on the key) -/
+
+def sumP (f : κ × α → Int) (m : List (κ × α)) : Int :=
+  match m with
+  | [] => 0
+  | p :: rest => f p + sumP f rest
+
+/-- value of `f` at key `k`, 0 when absent -/
+def atP (f : κ × α → Int) (m : List (κ × α)) (k : κ) : Int :=
+  match find? m k with
+  | some v => f (k, v)
+  | none => 0
+
+theorem sumP_set (f : κ × α → Int) (m : List (κ × α)) (k : κ) (v : α) :
+    sumP f (set m k v) = sumP f m - atP f m k + f (k, v) := by
+  induction m with
+  | nil => simp [set, sumP, atP]
+  | cons p rest ih =>
+    obtain ⟨k', v'⟩ := p
+    by_cases h : k' = k
+    · subst h; simp [set, sumP, atP, find?]; omega
+    · simp only [set, h, if_false, sumP, ih, atP, find?]; omega
+
+theorem sumP_erase (f : κ × α → Int) (m : List (κ × α)) (k : κ) :
+    sumP f (erase m k) = sumP f m - atP f m k := by
+  induction m with
+  | nil => simp [erase, sumP, atP]
+  | cons p rest ih =>
+    obtain ⟨k', v'⟩ := p
+    by_cases h : k' = k
+    · subst h; simp [erase, sumP, atP, find?]; omega
+    · simp only [erase, h, if_false, sumP, ih, atP, find?]; omega
+
+theorem sumP_nonneg (f : κ × α → Int) (m : List (κ × α)) (h : ∀ p ∈ m, 0 ≤ f p) : 0 ≤ sumP f m := by
+  induction m with
+  | nil => simp [sumP]
+  | cons p rest ih =>
+    simp only [sumP]
+    have h1 := h p (by simp)
+    have h2 := ih (fun q hq => h q (by simp [hq]))
+    omega
+
+theorem sumP_congr (f g : κ × α → Int) (m : List (κ × α)) (h : ∀ p ∈ m, f p = g p) : sumP f m = sumP g m := by
+  induction m with
+  | nil => rfl
+  | cons p rest ih =>
+    simp only [sumP]
+    rw [h p (by simp), ih (fun q hq => h q (by simp [hq]))]
+
+theorem atP_getD (f : κ × α → Int) (m : List (κ × α)) (k : κ) (d : α) (hd : f (k, d) = 0) :
+    atP f m k = f (k, getD m k d) := by
+  unfold atP getD
+  cases find? m k <;> simp [hd]
+
+theorem find?_erase_same (m : List (κ × α)) (k : κ) (h : NoDup m) : find? (erase m k) k = none := by
+  induction m with
+  | nil => rfl
+  | cons p rest ih =>
+    obtain ⟨k', v'⟩ := p
+    simp only [NoDup, keys, List.map_cons, List.nodup_cons] at h
+    by_cases h1 : k' = k
+    · subst h1; simp only [erase, if_true]; exact find?_none_of_not_mem rest k' h.1
+    · simp only [erase, h1, if_false, find?]; exact ih h.2
+
+theorem find?_erase_other (m : List (κ × α)) (k k2 : κ) (h : k2 ≠ k) :
+    find? (erase m k) k2 = find? m k2 := by
+  induction m with
+  | nil => rfl
+  | cons p rest ih =>
+    obtain ⟨k', v'⟩ := p
+    by_cases h1 : k' = k
+    · subst h1
+      have : ¬ k' = k2 := fun e => h e.symm
+      simp [erase, find?, this]
+    · by_cases h2 : k' = k2
+      · subst h2; simp [erase, find?, h1]
+      · simp [erase, find?, h1, h2, ih]
+
+theorem keys_erase_sub (m : List (κ × α)) (k x : κ) (hx : x ∈ keys (erase m k)) : x ∈ keys m := by
+  induction m with
+  | nil => simp [erase, keys] at hx
+  | cons p rest ih =>
+    obtain ⟨k', v'⟩ := p
+    by_cases h1 : k' = k
+    · simp only [erase, h1, if_true] at hx; simp [keys]; exact Or.inr (by simpa [keys] using hx)
+    · simp only [erase, h1, if_false, keys, List.map_cons, List.mem_cons] at hx ⊢
+      rcases hx with h2 | h2
+      · exact Or.inl h2
+      · exact Or.inr (ih h2)
+
+theorem noDup_erase (m : List (κ × α)) (k : κ) (h : NoDup m) : NoDup (erase m k) := by
+  induction m with
+  | nil => simpa [erase] using h
+  | cons p rest ih =>
+    obtain ⟨k', v'⟩ := p
+    simp only [NoDup, keys, List.map_cons, List.nodup_cons] at h
+    by_cases h1 : k' = k
+    · simp only [erase, h1, if_true]; exact h.2
+    · simp only [erase, h1, if_false, NoDup, keys, List.map_cons, List.nodup_cons]
+      exact ⟨fun hm => h.1 (keys_erase_sub rest k k' hm), ih h.2⟩
+
 end ExoVerif.KV
